@@ -27,7 +27,7 @@ import kopf
 
 from kv.explorer import Env, Scenario, UserAction, Violation, execute
 from kv.harness.change import parse_script
-from kv.harness.op import Operator, add_login, daemon_fn, make_settings, scripted
+from kv.harness.op import Operator, add_login, daemon_fn, make_settings, scripted, scripted_sync
 from kv.runner import CheckResult, run_groups
 from kv.world import CLUSTER_PEERING, CRDS, EVENTS, KEX, NAMESPACES, Request, Stream
 
@@ -68,7 +68,9 @@ class LifecycleScenario(Scenario):
         reg = kopf.OperatorRegistry()
         add_login(reg, env.world)
         for i, script in enumerate(P.get('startup', [['ok']])):
-            kopf.on.startup(id=f'st{i}', registry=reg, backoff=1.0)(scripted(env, f'st{i}', parse_script(script)))
+            # sync_startup: the handlers are plain `def`s, which kopf runs in threads (uncancellable while they run)
+            make = scripted_sync if P.get('sync_startup') else scripted
+            kopf.on.startup(id=f'st{i}', registry=reg, backoff=1.0)(make(env, f'st{i}', parse_script(script)))
         for i, script in enumerate(P.get('cleanup', [['ok']])):
             kopf.on.cleanup(id=f'cl{i}', registry=reg, backoff=1.0)(scripted(env, f'cl{i}', parse_script(script)))
         kopf.on.create('kopfexamples', id='c1', registry=reg)(scripted(env, 'c1', parse_script([P.get('handler', 'ok~2')])))
@@ -250,7 +252,7 @@ class LifecycleScenario(Scenario):
                     if (ex is None or ex > t_cl) and not (d.get('timeout') is not None and p['inst'] in flags and t_cl >= flags[p['inst']] + (d.get('backoff') or 0.0) + d['timeout']):
                         out.append(self.viol(env, 'cleanup-while-daemon-runs', f"cleanup started at {t_cl} while daemon instance {p['inst']} had neither exited nor been abandoned",
                                              clause='cleanup-last'))
-            elif t_started is not None and exit_ev[1]['how'] in ('returned', 'raised') and P.get('cleanup', [['ok']]):
+            elif t_started is not None and not stopped_early and exit_ev[1]['how'] in ('returned', 'raised') and P.get('cleanup', [['ok']]):
                 out.append(self.viol(env, 'cleanup-skipped', f"operator() ended ({exit_ev[1]['how']}) without running the cleanup handlers", clause='cleanup-last'))
         return out
 
@@ -275,6 +277,10 @@ def scenarios(tier: str) -> tuple[list[LifecycleScenario], list[LifecycleScenari
         for what, at in itertools.product(('break:kopfexamples', 'break:customresourcedefinitions', 'break:clusterkopfpeerings'), (1.0, 5.0)):
             scripted_.append(LifecycleScenario(daemon=dm, user=[(at, what), (at + 1.0, 'create-b')], horizon=at + 45.0))
         scripted_.append(LifecycleScenario(daemon=dm, bad_memo=True, user=[(3.0, 'create-b')], horizon=45.0))
+    # synchronous (threaded) startup handlers that take 3 s: a stop / cancellation before, during and after their run
+    for st in ([['ok~3']], [['ok~3'], ['ok']], [['temp1~3', 'ok~3']]):
+        for trig, at in itertools.product(('stop', 'cancel'), (0.0, 1.0, 2.5, 3.0, 5.0, 12.0)):
+            scripted_.append(LifecycleScenario(startup=st, sync_startup=True, daemon=None, user=[(at, trig)], horizon=at + 45.0))
     # more objects than workers (worker_limit): the queued ones must not be worked off after the stop / the failure
     for trig, at in itertools.product(('stop', 'cancel', 'break:kopfexamples'), (1.0, 7.0)):
         scripted_.append(LifecycleScenario(daemon=None, handler='ok~6', objects=4, worker_limit=1, user=[(at, trig)], horizon=at + 50.0))
